@@ -1007,6 +1007,342 @@ theorem createAsk_refusal_reason {mk : Option Market} {attrs : List String} {bal
     intro hh
     rw [h4.2 hh] at h; cases h
 
+/-- what a refusal class says about a bid -/
+def BidRefusalReason (mk : Option Market) (attrs : List String) (bal : Coins) (m : BidMsg) : Rej → Prop
+  | .invalid => m.valid = false
+  | .market => mk = none
+  | .closed => ∃ mkt, mk = some mkt ∧ mkt.acceptingOrders = false
+  | .attr => ∃ mkt, mk = some mkt ∧ ¬ AttrsOk mkt.reqBid attrs
+  | .fee => ∃ mkt, mk = some mkt ∧
+      ¬ (FlatFeeOk mkt.createBidFlat m.cfee ∧ BuyerFeeOk mkt.buyerFlat mkt.buyerRatios m.price m.fees)
+  | .funds => ¬ FundsOk bal m.cfee m.holdAmount
+  | .price => False
+  | .usersettle => False
+  | .overflow => False
+
+/-- **Every refusal of a bid names a condition that fails**; inside the guards a bid is never
+refused by a panic, nor with a class that does not apply to bids. -/
+theorem createBid_refusal_reason {mk : Option Market} {attrs : List String} {bal : Coins} {m : BidMsg}
+    (hw : ∀ mkt, mk = some mkt → MarketBidWf mkt m.price)
+    (hn : ∀ mkt, mk = some mkt → PairsOk mkt.reqBid attrs) {e : Rej}
+    (h : createBid mk attrs bal m = .error e) : BidRefusalReason mk attrs bal m e := by
+  unfold createBid at h
+  by_cases hv : m.valid = true
+  swap
+  · have hv' : m.valid = false := by simpa using hv
+    simp only [hv', Bool.not_false, if_true, Except.error.injEq] at h
+    subst h; exact hv'
+  simp only [hv, Bool.not_true, Bool.false_eq_true, if_false] at h
+  cases mk with
+  | none =>
+    simp only [validateMarketIsAcceptingOrders, Except.error.injEq] at h
+    subst h; rfl
+  | some mkt =>
+    have hmw := hw mkt rfl
+    simp only [validateMarketIsAcceptingOrders] at h
+    by_cases hacc : mkt.acceptingOrders = true
+    swap
+    · have hacc' : mkt.acceptingOrders = false := by simpa using hacc
+      simp only [hacc', Bool.false_eq_true, if_false, Except.error.injEq] at h
+      subst h; exact ⟨mkt, rfl, hacc'⟩
+    simp only [hacc, if_true] at h
+    by_cases hat : acctHasReqAttrs mkt.reqBid attrs = true
+    swap
+    · have hat' : acctHasReqAttrs mkt.reqBid attrs = false := by simpa using hat
+      simp only [hat', Bool.not_false, if_true, Except.error.injEq] at h
+      subst h; exact ⟨mkt, rfl, (acctHasReqAttrs_iff (hn mkt rfl)).not.1 hat⟩
+    simp only [hat, Bool.not_true, Bool.false_eq_true, if_false] at h
+    have hfees : (m.fees.map (·.1)).Nodup := by
+      unfold BidMsg.valid at hv
+      simp only [Bool.and_eq_true] at hv
+      exact coinsValid_nodup hv.2
+    have h1 := flatFee_accepts_iff_spec hmw.hcflat m.cfee
+    have h2 := buyerFee_accepts_iff_spec hmw.hbuyer hfees
+    have h4 := collectThenHold_iff bal m.cfee m.holdAmount
+    unfold validateCreateBidFees at h
+    rcases flatFee_refusal_is_fee mkt.createBidFlat m.cfee with a | a
+    swap
+    · simp only [a, Except.error.injEq] at h
+      subst h
+      refine ⟨mkt, rfl, fun hh => ?_⟩
+      rw [h1.2 hh.1] at a; cases a
+    rcases buyerFee_no_panic hmw.hbuyer m.fees with b | b
+    swap
+    · simp only [a, b, Except.error.injEq] at h
+      subst h
+      refine ⟨mkt, rfl, fun hh => ?_⟩
+      rw [h2.2 hh.2] at b; cases b
+    simp only [a, b] at h
+    have he := collectThenHold_error h
+    subst he
+    intro hh
+    rw [h4.2 hh] at h; cases h
+
+/-- what a refusal class says about a commitment (`s` = what is stored under the id; the
+creation fee is checked and collected before the market is looked at) -/
+def CommitRefusalReason (s : MStore) (attrs : List String) (bal : Coins) (m : CommitMsg) : Rej → Prop
+  | .invalid => m.valid = false
+  | .fee => ¬ FlatFeeOk s.m.createCommitFlat m.cfee
+  | .funds => ¬ FundsOk bal m.cfee m.amount
+  | .market => s.known = false
+  | .closed => s.known = true ∧ s.m.acceptingCommitments = false
+  | .attr => s.known = true ∧ ¬ AttrsOk s.m.reqCommit attrs
+  | .price => False
+  | .usersettle => False
+  | .overflow => False
+
+/-- the creation fee as a coin list -/
+def feeCoinsOf (fee : Option Coin) : Coins := match fee with | some c => [c] | none => []
+
+theorem commitFunds_eq (s : MStore) (attrs : List String) (bal : Coins) (m : CommitMsg) :
+    commitFunds s attrs bal m =
+      if !m.valid then .error .invalid else
+      match validateFlatFee s.m.createCommitFlat m.cfee with
+      | .error e => .error e
+      | .ok _ =>
+        if !covers bal (feeCoinsOf m.cfee) then .error .funds else
+        match validateMarketIsAcceptingCommitments s.view with
+        | .error e => .error e
+        | .ok mkt =>
+          if !acctHasReqAttrs mkt.reqCommit attrs then .error .attr
+          else if !covers (Coins.sub bal (feeCoinsOf m.cfee)) m.amount then .error .funds
+          else .ok () := rfl
+
+theorem fundsOk_eq (bal : Coins) (fee : Option Coin) (hold : Coins) :
+    FundsOk bal fee hold ↔
+      covers bal (feeCoinsOf fee) = true ∧ covers (Coins.sub bal (feeCoinsOf fee)) hold = true := Iff.rfl
+
+/-- **Every refusal of a commitment names a condition that fails**, and `CommitFunds` never
+panics (no 256-bit guard is needed: no fee arithmetic on this path). -/
+theorem commitFunds_refusal_reason {s : MStore} {attrs : List String} {bal : Coins} {m : CommitMsg}
+    (hw : (s.m.createCommitFlat.map (·.1)).Nodup)
+    (hn : s.known = true → PairsOk s.m.reqCommit attrs) {e : Rej}
+    (h : commitFunds s attrs bal m = .error e) : CommitRefusalReason s attrs bal m e := by
+  rw [commitFunds_eq] at h
+  have hF := fundsOk_eq bal m.cfee m.amount
+  generalize feeCoinsOf m.cfee = fc at h hF
+  by_cases hv : m.valid = true
+  swap
+  · have hv' : m.valid = false := by simpa using hv
+    simp only [hv', Bool.not_false, if_true, Except.error.injEq] at h
+    subst h; exact hv'
+  simp only [hv, Bool.not_true, Bool.false_eq_true, if_false] at h
+  have h1 := flatFee_accepts_iff_spec hw m.cfee
+  rcases flatFee_refusal_is_fee s.m.createCommitFlat m.cfee with a | a
+  swap
+  · simp only [a, Except.error.injEq] at h
+    subst h
+    intro hh; rw [h1.2 hh] at a; cases a
+  simp only [a] at h
+  by_cases hc1 : covers bal fc = true
+  swap
+  · have hc1' : covers bal fc = false := by simpa using hc1
+    simp only [hc1', Bool.not_false, if_true, Except.error.injEq] at h
+    subst h
+    intro hh; exact hc1 (hF.1 hh).1
+  simp only [hc1, Bool.not_true, Bool.false_eq_true, if_false] at h
+  unfold MStore.view validateMarketIsAcceptingCommitments at h
+  cases hk : s.known with
+  | false =>
+    simp only [hk, Bool.false_eq_true, if_false, Except.error.injEq] at h
+    subst h; exact hk
+  | true =>
+    simp only [hk, if_true] at h
+    by_cases hacc : s.m.acceptingCommitments = true
+    swap
+    · have hacc' : s.m.acceptingCommitments = false := by simpa using hacc
+      simp only [hacc', Bool.false_eq_true, if_false, Except.error.injEq] at h
+      subst h; exact ⟨hk, hacc'⟩
+    simp only [hacc, if_true] at h
+    by_cases hat : acctHasReqAttrs s.m.reqCommit attrs = true
+    swap
+    · have hat' : acctHasReqAttrs s.m.reqCommit attrs = false := by simpa using hat
+      simp only [hat', Bool.not_false, if_true, Except.error.injEq] at h
+      subst h; exact ⟨hk, (acctHasReqAttrs_iff (hn hk)).not.1 hat⟩
+    simp only [hat, Bool.not_true, Bool.false_eq_true, if_false] at h
+    by_cases hc2 : covers (Coins.sub bal fc) m.amount = true
+    swap
+    · have hc2' : covers (Coins.sub bal fc) m.amount = false := by simpa using hc2
+      simp only [hc2', Bool.not_false, if_true, Except.error.injEq] at h
+      subst h
+      intro hh; exact hc2 (hF.1 hh).2
+    simp only [hc2, Bool.not_true, Bool.false_eq_true, if_false, reduceCtorEq] at h
+
+/-- what a refusal class says about a user fill of bids at the market's gate -/
+def FillBidsRefusalReason (mk : Option Market) (attrs : List String) (cfee sflat : Option Coin) : Rej → Prop
+  | .invalid => fillBidsValid cfee sflat = false
+  | .market => mk = none
+  | .closed => ∃ mkt, mk = some mkt ∧ mkt.acceptingOrders = false
+  | .usersettle => ∃ mkt, mk = some mkt ∧ mkt.acceptingOrders = true ∧ mkt.userSettle = false
+  | .attr => ∃ mkt, mk = some mkt ∧ ¬ AttrsOk mkt.reqAsk attrs
+  | .fee => ∃ mkt, mk = some mkt ∧ ¬ (FlatFeeOk mkt.createAskFlat cfee ∧ FlatFeeOk mkt.sellerFlat sflat)
+  | .price => False
+  | .funds => False
+  | .overflow => False
+
+/-- **Every refusal at the gate of a user fill of bids names a condition that fails**; the
+gate never panics (no guard needed). -/
+theorem fillBidsGate_refusal_reason {mk : Option Market} {attrs : List String} {cfee sflat : Option Coin}
+    (hw : ∀ mkt, mk = some mkt → (mkt.createAskFlat.map (·.1)).Nodup ∧ (mkt.sellerFlat.map (·.1)).Nodup)
+    (hn : ∀ mkt, mk = some mkt → PairsOk mkt.reqAsk attrs) {e : Rej}
+    (h : fillBidsGate mk attrs cfee sflat = .error e) : FillBidsRefusalReason mk attrs cfee sflat e := by
+  unfold fillBidsGate validateAcceptingOrdersAndCanUserSettle validateMarketIsAcceptingOrders at h
+  by_cases hv : fillBidsValid cfee sflat = true
+  swap
+  · have hv' : fillBidsValid cfee sflat = false := by simpa using hv
+    simp only [hv', Bool.not_false, if_true, Except.error.injEq] at h
+    subst h; exact hv'
+  simp only [hv, Bool.not_true, Bool.false_eq_true, if_false] at h
+  cases mk with
+  | none =>
+    simp only [Except.error.injEq] at h
+    subst h; rfl
+  | some mkt =>
+    obtain ⟨hn1, hn2⟩ := hw mkt rfl
+    simp only at h
+    by_cases hacc : mkt.acceptingOrders = true
+    swap
+    · have hacc' : mkt.acceptingOrders = false := by simpa using hacc
+      simp only [hacc', Bool.false_eq_true, if_false, Except.error.injEq] at h
+      subst h; exact ⟨mkt, rfl, hacc'⟩
+    simp only [hacc, if_true] at h
+    by_cases hus : mkt.userSettle = true
+    swap
+    · have hus' : mkt.userSettle = false := by simpa using hus
+      simp only [hus', Bool.false_eq_true, if_false, Except.error.injEq] at h
+      subst h; exact ⟨mkt, rfl, hacc, hus'⟩
+    simp only [hus, if_true] at h
+    by_cases hat : acctHasReqAttrs mkt.reqAsk attrs = true
+    swap
+    · have hat' : acctHasReqAttrs mkt.reqAsk attrs = false := by simpa using hat
+      simp only [hat', Bool.not_false, if_true, Except.error.injEq] at h
+      subst h; exact ⟨mkt, rfl, (acctHasReqAttrs_iff (hn mkt rfl)).not.1 hat⟩
+    simp only [hat, Bool.not_true, Bool.false_eq_true, if_false] at h
+    have h1 := flatFee_accepts_iff_spec hn1 cfee
+    have h2 := flatFee_accepts_iff_spec hn2 sflat
+    unfold validateCreateAskFees at h
+    rcases flatFee_refusal_is_fee mkt.createAskFlat cfee with a | a
+    swap
+    · simp only [a, Except.error.injEq] at h
+      subst h
+      refine ⟨mkt, rfl, fun hh => ?_⟩
+      rw [h1.2 hh.1] at a; cases a
+    rcases flatFee_refusal_is_fee mkt.sellerFlat sflat with b | b
+    swap
+    · simp only [a, b, Except.error.injEq] at h
+      subst h
+      refine ⟨mkt, rfl, fun hh => ?_⟩
+      rw [h2.2 hh.2] at b; cases b
+    simp only [a, b, reduceCtorEq] at h
+
+/-- what a refusal class says about a user fill of asks at the market's gate -/
+def FillAsksRefusalReason (mk : Option Market) (attrs : List String) (cfee : Option Coin)
+    (tp : Coin) (fees : List Coin) : Rej → Prop
+  | .invalid => fillAsksValid cfee tp fees = false
+  | .market => mk = none
+  | .closed => ∃ mkt, mk = some mkt ∧ mkt.acceptingOrders = false
+  | .usersettle => ∃ mkt, mk = some mkt ∧ mkt.acceptingOrders = true ∧ mkt.userSettle = false
+  | .attr => ∃ mkt, mk = some mkt ∧ ¬ AttrsOk mkt.reqBid attrs
+  | .fee => ∃ mkt, mk = some mkt ∧
+      ¬ (FlatFeeOk mkt.createBidFlat cfee ∧ BuyerFeeOk mkt.buyerFlat mkt.buyerRatios tp fees)
+  | .price => False
+  | .funds => False
+  | .overflow => False
+
+/-- **Every refusal at the gate of a user fill of asks names a condition that fails**; inside
+the guards the gate never panics. -/
+theorem fillAsksGate_refusal_reason {mk : Option Market} {attrs : List String} {cfee : Option Coin}
+    {tp : Coin} {fees : List Coin}
+    (hw : ∀ mkt, mk = some mkt → MarketBidWf mkt tp)
+    (hn : ∀ mkt, mk = some mkt → PairsOk mkt.reqBid attrs) {e : Rej}
+    (h : fillAsksGate mk attrs cfee tp fees = .error e) :
+    FillAsksRefusalReason mk attrs cfee tp fees e := by
+  unfold fillAsksGate validateAcceptingOrdersAndCanUserSettle validateMarketIsAcceptingOrders at h
+  by_cases hv : fillAsksValid cfee tp fees = true
+  swap
+  · have hv' : fillAsksValid cfee tp fees = false := by simpa using hv
+    simp only [hv', Bool.not_false, if_true, Except.error.injEq] at h
+    subst h; exact hv'
+  simp only [hv, Bool.not_true, Bool.false_eq_true, if_false] at h
+  have hfees : (fees.map (·.1)).Nodup := by
+    unfold fillAsksValid at hv
+    simp only [Bool.and_eq_true] at hv
+    exact coinsValid_nodup hv.2
+  cases mk with
+  | none =>
+    simp only [Except.error.injEq] at h
+    subst h; rfl
+  | some mkt =>
+    have hmw := hw mkt rfl
+    simp only at h
+    by_cases hacc : mkt.acceptingOrders = true
+    swap
+    · have hacc' : mkt.acceptingOrders = false := by simpa using hacc
+      simp only [hacc', Bool.false_eq_true, if_false, Except.error.injEq] at h
+      subst h; exact ⟨mkt, rfl, hacc'⟩
+    simp only [hacc, if_true] at h
+    by_cases hus : mkt.userSettle = true
+    swap
+    · have hus' : mkt.userSettle = false := by simpa using hus
+      simp only [hus', Bool.false_eq_true, if_false, Except.error.injEq] at h
+      subst h; exact ⟨mkt, rfl, hacc, hus'⟩
+    simp only [hus, if_true] at h
+    by_cases hat : acctHasReqAttrs mkt.reqBid attrs = true
+    swap
+    · have hat' : acctHasReqAttrs mkt.reqBid attrs = false := by simpa using hat
+      simp only [hat', Bool.not_false, if_true, Except.error.injEq] at h
+      subst h; exact ⟨mkt, rfl, (acctHasReqAttrs_iff (hn mkt rfl)).not.1 hat⟩
+    simp only [hat, Bool.not_true, Bool.false_eq_true, if_false] at h
+    have h1 := flatFee_accepts_iff_spec hmw.hcflat cfee
+    have h2 := buyerFee_accepts_iff_spec hmw.hbuyer hfees
+    unfold validateCreateBidFees at h
+    rcases flatFee_refusal_is_fee mkt.createBidFlat cfee with a | a
+    swap
+    · simp only [a, Except.error.injEq] at h
+      subst h
+      refine ⟨mkt, rfl, fun hh => ?_⟩
+      rw [h1.2 hh.1] at a; cases a
+    rcases buyerFee_no_panic hmw.hbuyer fees with b | b
+    swap
+    · simp only [a, b, Except.error.injEq] at h
+      subst h
+      refine ⟨mkt, rfl, fun hh => ?_⟩
+      rw [h2.2 hh.2] at b; cases b
+    simp only [a, b, reduceCtorEq] at h
+
+/-- **No admission panics inside the guards**: none of the five message-level admissions
+returns the overflow class when the stored market is well formed for the message. -/
+theorem admissions_no_panic {mk : Option Market} {attrs : List String} {bal : Coins} :
+    (∀ m : AskMsg, (∀ mkt, mk = some mkt → MarketAskWf mkt m) → (∀ mkt, mk = some mkt → PairsOk mkt.reqAsk attrs) →
+      createAsk mk attrs bal m ≠ .error .overflow) ∧
+    (∀ m : BidMsg, (∀ mkt, mk = some mkt → MarketBidWf mkt m.price) → (∀ mkt, mk = some mkt → PairsOk mkt.reqBid attrs) →
+      createBid mk attrs bal m ≠ .error .overflow) ∧
+    (∀ cfee sflat, (∀ mkt, mk = some mkt → (mkt.createAskFlat.map (·.1)).Nodup ∧ (mkt.sellerFlat.map (·.1)).Nodup) →
+      (∀ mkt, mk = some mkt → PairsOk mkt.reqAsk attrs) →
+      fillBidsGate mk attrs cfee sflat ≠ .error .overflow) ∧
+    (∀ cfee tp fees, (∀ mkt, mk = some mkt → MarketBidWf mkt tp) → (∀ mkt, mk = some mkt → PairsOk mkt.reqBid attrs) →
+      fillAsksGate mk attrs cfee tp fees ≠ .error .overflow) :=
+  ⟨fun _ hw hn h => createAsk_refusal_reason hw hn h, fun _ hw hn h => createBid_refusal_reason hw hn h,
+   fun _ _ hw hn h => fillBidsGate_refusal_reason hw hn h,
+   fun _ _ _ hw hn h => fillAsksGate_refusal_reason hw hn h⟩
+
+/-- `CommitFunds` never panics, whatever is stored under the id. -/
+theorem commitFunds_no_panic (s : MStore) (attrs : List String) (bal : Coins) (m : CommitMsg) :
+    commitFunds s attrs bal m ≠ .error .overflow := by
+  intro h
+  rw [commitFunds_eq] at h
+  unfold validateMarketIsAcceptingCommitments at h
+  rcases flatFee_refusal_is_fee s.m.createCommitFlat m.cfee with a | a <;> simp only [a] at h
+  · cases hv : s.view with
+    | none => simp only [hv] at h; split_ifs at h <;> cases h
+    | some mk =>
+      simp only [hv] at h
+      cases hmv : m.valid <;> cases hm : mk.acceptingCommitments <;> cases hA : acctHasReqAttrs mk.reqCommit attrs <;>
+        cases hc1 : covers bal (feeCoinsOf m.cfee) <;>
+        cases hc2 : covers (Coins.sub bal (feeCoinsOf m.cfee)) m.amount <;>
+        simp [hmv, hm, hA, hc1, hc2] at h
+  · split_ifs at h <;> cases h
+
 /-! ### Paying more never hurts; a larger price stays coverable -/
 
 /-- A flat fee that is accepted stays accepted when more of the same coin is offered. -/
@@ -1389,6 +1725,19 @@ example : normalizeName " Kyc .PB" = "kyc.pb" := by decide
 example : isReqAttrMatch "*.kyc.pb" "us.kyc.pb" = true := by decide
 example : isReqAttrMatch "*.kyc.pb" "kyc.pb" = false := by decide
 example : isReqAttrMatch "*.kyc.pb" "us.evilkyc.pb" = false := by decide
+
+-- refusal reasons: a bid without the creation fee the market asks is refused as "fee", a
+-- commitment on an id that is not a market as "market", a fill on a market without user
+-- settlement as "usersettle" (hypotheses of the `*_refusal_reason` theorems on these instances)
+example : MarketBidWf { createBidFlat := [("aaa", 5)] } ("usd", 5) :=
+  ⟨by decide, ⟨⟨by decide, by decide⟩, ⟨by decide, by decide⟩, by decide, by decide, by decide⟩⟩
+example : createBid (some { createBidFlat := [("aaa", 5)] }) [] [("usd", 10)]
+    { marketId := 1, assets := ("apple", 1), price := ("usd", 5), fees := [], cfee := none } = .error .fee := by rfl
+example : commitFunds { known := false, m := { acceptingCommitments := true } } [] [("usd", 10)]
+    { marketId := 1, amount := [("usd", 5)], cfee := none } = .error .market := by rfl
+example : fillBidsGate (some { userSettle := false }) [] none none = .error .usersettle := by rfl
+example : fillAsksGate (some { userSettle := true, reqBid := ["kyc.pb"] }) ["aml.gov"] none ("usd", 5) []
+    = .error .attr := by rfl
 
 /-- a history with residue: before the market exists the authority switches commitments on,
 writes a create-commitment fee option and a required attribute under its id; the market is then
